@@ -265,6 +265,9 @@ class State:
         self.notes = []
         self.mem = {}           # local index -> Val (word element granularity: (idx, k))
         self.defs = {}          # fresh variable -> (kind, operands)
+        self.case = {}          # case assumptions chosen by the rule (e.g. {"pow2": "lo"})
+        self.pow2 = {}          # D -> E with D * E = 2^32 (D a power of two below 2^32)
+        self.rems = []          # (remainder expression, divisor expression): 0 <= remainder < divisor
 
     def new(self, prefix, ub):
         self.fresh += 1
@@ -286,6 +289,9 @@ class State:
         s.notes = list(self.notes)
         s.mem = dict(self.mem)
         s.defs = dict(self.defs)
+        s.case = dict(self.case)
+        s.pow2 = dict(self.pow2)
+        s.rems = list(self.rems)
         return s
 
 
@@ -456,6 +462,15 @@ class Exec:
                 b = self.pop(st)
             a = self.pop(st)
             d = a.z - b.z
+            dv = d.vars()
+            if len(dv) == 1 and d == ZP.var(next(iter(dv))) and next(iter(dv)) in st.pow2:
+                d = ZP.const(1)         # a power of two is not zero
+            if d.const_value() is not None and not (a.wrapped or b.wrapped):
+                r = 1 if d.const_value() == 0 else 0
+                if op == "neq":
+                    r = 1 - r
+                self.push(st, const(r))
+                return
             if (a.wrapped or b.wrapped) and not self.zero_test_ok(a, b):
                 raise Undecided("%s:%d: equality test on a value that may have wrapped around the field modulus" % (self.m.path, ln))
             e = st.new("e", 1)
@@ -515,7 +530,11 @@ class Exec:
             c = self.pop(st); b = self.pop(st); a = self.pop(st)
             self.flag(c, ins, ln)
             # docs: cdrop [c, b, a] -> b if c = 1 else a ; cswap [c, b, a] -> [b, a] if c = 0 ... [a, b] if c = 1
-            sel = lambda x, y: Val(c.z * x.z + (ZP.const(1) - c.z) * y.z, max(x.ub, y.ub), tag=("ite", c.b, x, y))
+            cv = c.z.const_value()
+            if cv in (0, 1):
+                sel = (lambda x, y: x) if cv == 1 else (lambda x, y: y)
+            else:
+                sel = lambda x, y: Val(c.z * x.z + (ZP.const(1) - c.z) * y.z, max(x.ub, y.ub), tag=("ite", c.b, x, y))
             if op == "cdrop":
                 self.push(st, sel(b, a))
             else:
@@ -560,6 +579,17 @@ class Exec:
         if op in ("u32overflowing_sub", "u32wrapping_sub"):
             b = self.pop(st) if not imm else const(int(imm[0])); a = self.pop(st)
             self.u32_operand(st, a, ins, ln); self.u32_operand(st, b, ins, ln)
+            if b.z.const_value() == 0:
+                self.push(st, a)
+                if op.startswith("u32overflowing"):
+                    self.push(st, const(0))
+                return
+            if a.z.const_value() is not None and b.z.const_value() is not None:
+                av, bv = a.z.const_value(), b.z.const_value()
+                self.push(st, const((av - bv) % U32))
+                if op.startswith("u32overflowing"):
+                    self.push(st, const(1 if av < bv else 0))
+                return
             k = st.new("k", 1)
             atom = ("lt", a.z, b.z)
             st.meaning[k] = atom
@@ -655,6 +685,64 @@ class Exec:
             st.stack[:12] = w
             st.notes.append(("hperm", ins_, [x.z for x in w], ln))
             return
+        # ---- powers of two, splitting and division (shifts)
+        if op == "pow2":
+            a = self.pop(st)
+            mode = st.case.get("pow2", "opaque")
+            if mode == "opaque":
+                t = st.new("T", 2 ** 63)
+                st.defs[t] = ("pow2", a)
+                self.push(st, Val(ZP.var(t), 2 ** 63, tag=("pow2", a)))
+            else:
+                d, e = st.new("D", 2 ** 31), st.new("E", 2 ** 32)
+                st.pow2[d] = e
+                st.defs[d] = ("pow2-part", a, mode)
+                self.push(st, Val(ZP.var(d), 2 ** 31) if mode == "lo" else Val(ZP.var(d) * ZP.const(U32), 2 ** 63))
+            return
+        if op == "u32split":
+            a = self.pop(st)
+            if a.wrapped:
+                raise Undecided("%s:%d: u32split of a wrapped value" % (self.m.path, ln))
+            if a.ub < U32:
+                hi, lo = const(0), a
+            elif a.z.divisible_by(U32) and (a.ub >> 32) < U32 and not (a.z.const_value() is not None and False):
+                hi, lo = Val(ZP({m_: c // U32 for m_, c in a.z.t.items()}), a.ub >> 32), const(0)
+            else:
+                h = st.new("H", a.ub >> 32)
+                st.defs[h] = ("split-hi", a.z)
+                hi, lo = Val(ZP.var(h), a.ub >> 32), Val(a.z - ZP.const(U32) * ZP.var(h), U32 - 1)
+            self.push(st, lo)
+            self.push(st, hi)
+            return
+        if op == "u32divmod":
+            b = self.pop(st) if not imm else const(int(imm[0])); a = self.pop(st)
+            self.u32_operand(st, a, ins, ln); self.u32_operand(st, b, ins, ln)
+            if a.z.const_value() is not None and b.z.const_value() not in (None, 0):
+                self.push(st, const(a.z.const_value() // b.z.const_value()))
+                self.push(st, const(a.z.const_value() % b.z.const_value()))
+                return
+            q = st.new("q", a.ub)
+            st.defs[q] = ("quot", a.z, b.z)
+            r = Val(a.z - ZP.var(q) * b.z, max(b.ub - 1, 0))
+            st.rems.append((r.z, b.z, q))
+            self.push(st, Val(ZP.var(q), a.ub))
+            self.push(st, r)
+            return
+        if op == "div":
+            b = self.pop(st) if not imm else const(int(imm[0])); a = self.pop(st)
+            if a.z.is_zero():
+                self.push(st, const(0))
+                return
+            bv = b.z.const_value()
+            if bv not in (None, 0) and a.z.divisible_by(bv) and not a.wrapped:
+                self.push(st, Val(ZP({m_: c // bv for m_, c in a.z.t.items()}), a.ub // bv))
+                return
+            vs = b.z.vars()
+            if len(vs) == 1 and b.z == ZP.var(next(iter(vs))) and next(iter(vs)) in st.pow2 and a.z.divisible_by(U32) and not a.wrapped:
+                e = st.pow2[next(iter(vs))]
+                self.push(st, Val(ZP({m_: c // U32 for m_, c in a.z.t.items()}) * ZP.var(e), (a.ub >> 32) * (2 ** 32)))
+                return
+            raise Undecided("%s:%d: field division %r / %r is outside the integer model" % (self.m.path, ln, a.z, b.z))
         # ---- advice
         if op == "adv_push":
             n = int(imm[0])
@@ -668,7 +756,7 @@ class Exec:
             st.injected.append(ins)
             return
         if op in ("loc_store", "loc_load", "mem_load", "mem_store", "locaddr",
-                  "pow2", "u32split", "u32divmod", "u32div", "u32mod", "div", "inv", "neg", "exp", "u32shl", "u32shr", "u32rotl", "u32rotr", "u32lt", "u32gt",
+                  "u32div", "u32mod", "inv", "exp", "u32shl", "u32shr", "u32rotl", "u32rotr", "u32lt", "u32gt",
                   "u32lte", "u32gte", "u32min", "u32max", "ext2mul", "hmerge", "hash", "mtree_get", "mtree_set", "mtree_merge", "mtree_verify",
                   "adv_loadw", "mem_stream", "caller", "clk", "call", "syscall", "dynexec", "dyncall", "procref", "u32cast", "u32test", "u32testw",
                   "ilog2", "is_odd", "lt", "gt", "lte", "gte", "eqw", "assert_eqw", "assertz", "cswapw", "cdropw", "fri_ext2fold4", "rcomb_base", "ext2add", "ext2sub",
